@@ -96,6 +96,7 @@ func init() {
 		Run: func(c *core.Ctx, r *core.Report) {
 			E11CutsSortedBeforeUse(c, r)
 			E11CutInterval(c, r)
+			E11CloseUsesOwnStart(c, r)
 			E9ChordShortcut(c, r)
 			E11QuadratureCoversArc(c, r)
 			E3ArcShortcut(c, r)
@@ -514,6 +515,7 @@ func init() {
 			E11RotationMerge(c, r)
 			E11MatrixInverse(c, r)
 			E11MatrixComposers(c, r)
+			E11AboutIsConjugation(c, r)
 			E11OmittedTerm(c, r)
 			E11GramConsistency(c, r)
 		},
